@@ -19,6 +19,19 @@ thread_local! {
     static NEXT_ID: Cell<Option<u128>> = const { Cell::new(None) };
     static ORDER_MODE: Cell<OrderMode> = const { Cell::new(OrderMode::Natural) };
     static ORDER_LOG: RefCell<Vec<(&'static str, usize)>> = const { RefCell::new(Vec::new()) };
+    static RETIRED: RefCell<Vec<(u32, usize)>> = const { RefCell::new(Vec::new()) };
+}
+
+/// H3: records the instruction pointer and the gas used by a thread when the
+/// virtual machine retires it (same order as the stored states).
+pub fn log_retired(instruction_pointer: u32, gas_usage: usize) {
+    RETIRED.with(|r| r.borrow_mut().push((instruction_pointer, gas_usage)));
+}
+
+/// H3: takes the log written by [`log_retired`], leaving it empty.
+#[must_use]
+pub fn take_retired() -> Vec<(u32, usize)> {
+    RETIRED.with(|r| std::mem::take(&mut *r.borrow_mut()))
 }
 
 /// Switches deterministic identities on (counting from [`FIRST_ID`]).
